@@ -138,6 +138,9 @@ PayloadCases ==
   UNION {UNION {{Case("payload", <<>>, kf[1], kf[2], <<[name |-> kw, vt |-> "any", cls |-> c]>>) : c \in PayloadsX}
                  : kw \in AnyTyped(kf[1], kf[2]) \cup (IF AdmitsExt(kf[1], kf[2]) THEN {"x-ext"} ELSE {})}
           : kf \in KindFlavours}
+  \* "no security at all" written explicitly: an empty list of requirements (distinct from an absent member)
+  \cup {Case("payload", <<>>, kf[1], kf[2], <<[name |-> "security", vt |-> "security", cls |-> "secNone"]>>)
+          : kf \in {x \in KindFlavours : "security" \in Free(x[1], x[2])}}
 
 \* ---- whole, valid Swagger documents (C19): every single-member case of every kind, placed at
 \* the end of every nesting chain that starts at the document root
